@@ -190,6 +190,13 @@ def run(ctx):
                     o1 = fn_origins(g, c.args[1], True)
                     if has(o0, 'call:*OpenMessage::get_signers_id') and (has(o1, 'clarg#2.party_id*') or has(o1, '*party_id*')):
                         ok = True
+                # the membership test written out: `ids.iter().any(|id| id == &signer.party_id)`
+                if any(glob_match('*PartialEq*::eq', n) or glob_match('*PartialEq*::ne', n) for n in c.names()) and len(c.args) == 2:
+                    oa = fn_origins(g, c.args[0], True)
+                    ob = fn_origins(g, c.args[1], True)
+                    for x, y in ((oa, ob), (ob, oa)):
+                        if has(x, 'call:*OpenMessage::get_signers_id') and has(y, '*party_id*') and not has(y, 'call:*OpenMessage::get_signers_id'):
+                            ok = True
         if ok:
             R.ok('c', 'R5', 'create_certificate: signers filtered by open_message.get_signers_id().contains(signer.party_id)', '', cc.loc())
         else:
